@@ -538,7 +538,7 @@ def gen_order_batch(seed, tier):
         add(f, subs, ip, "order:directed")
         add(f, subs, {}, "order:directed")
         add(f, {}, ip, "order:directed")
-    n = 100 if tier == "quick" else 700
+    n = 80 if tier == "quick" else 700
     tries = 0
     while len(blue) < n + 3 * len(directed) and tries < 40 * n:
         tries += 1
@@ -901,7 +901,7 @@ def check_batch_cases(chk, batch, env, cases, rnd, tier, stats):
             d = c.describe()
             d.update({"kind": "input", "what": msg, "repro": "./check C05 --replay <this file>"})
             chk.violation(d, key="entry:%s" % msg[:40])
-        n, bad = semantic_oracle(chk, c, rnd, 6 if tier == "quick" else 12)
+        n, bad = semantic_oracle(chk, c, rnd, (3 if c.kind.startswith(("shared", "order")) else 6) if tier == "quick" else 12)
         stats["semantic_evals"] += n
         if n:
             stats["semantic_cases"] += 1
@@ -932,8 +932,9 @@ def run(tier):
         off = len(all_cases)
         for p, k, n in write_cases(chk.dir, "b%d" % b, cases, OK_DEF, 100):
             files.append((p, off + k, n))
-        for p, k, n in write_cases(chk.dir, "canon%d" % b, cases, CANON_DEF, 200):
-            canon_files.append((p, off + k, n))
+        if not (tier == "quick" and b == ORDER_BATCH):     # copies of formulas of the same generator: canon checked in thorough
+            for p, k, n in write_cases(chk.dir, "canon%d" % b, cases, CANON_DEF, 200):
+                canon_files.append((p, off + k, n))
         all_cases += cases
     chk.cov["creation_order_family"] = {"cases": sum(v for k0, v in stats["kinds"].items() if k0.startswith("order:")),
                                         "orders": ORDERS, "order_dependent_results": stats.get("order_dependent", 0)}
@@ -992,6 +993,8 @@ def replay(path):
     env, cases = gen_batch(seed, r["batch"], os.environ.get("VERIF_TIER", "quick"))
     c = cases[r["index"]]
     print("formula :", c.f.serialize())
+    if getattr(c, "order", None):
+        print("creation order of the nodes in a fresh environment:", c.order)
     for k, v in c.subs:
         print("  %s  ->  %s" % (k.serialize(), v.serialize()))
     for fs, fi in c.interps:
